@@ -240,6 +240,13 @@ impl Prop for C17 {
         if o.def_eps != f64::default_epsilon() || o.def_rel != f64::default_max_relative() {
             fail!("{tyname}: default tolerances are {} / {} instead of the f64 defaults", o.def_eps, o.def_rel);
         }
+        // comparing a value with ITSELF (the very same object) must follow the number-by-number rule too
+        // (it is false for an infinite number under abs_diff_eq: |inf - inf| is NaN)
+        let want_abs_aa = a.iter().all(|x| f64::abs_diff_eq(x, x, eps));
+        let want_rel_aa = a.iter().all(|x| f64::relative_eq(x, x, eps, maxrel));
+        if o.abs_aa != want_abs_aa || o.rel_aa != want_rel_aa {
+            fail!("comparing a value with itself (same object): abs_diff_eq {} / relative_eq {} but number-by-number gives {want_abs_aa} / {want_rel_aa}: {}", o.abs_aa, o.rel_aa, describe());
+        }
         let a_finite = a.iter().all(|v| v.is_finite());
         if a_finite && (!o.abs_aa || !o.rel_aa) {
             fail!("not reflexive on a finite value: abs {} rel {}: {}", o.abs_aa, o.rel_aa, describe());
